@@ -99,7 +99,13 @@ func stateInlineAnnotationTextPrefix(s *Scanner, c byte) state {
 	case bytes.IsNewLine(c):
 		s.found(lexeme.InlineAnnotationEnd)
 		s.found(lexeme.NewLine)
-		s.step = s.returnToStep.Pop()
+		fn := s.returnToStep.Pop()
+		s.step = func(s *Scanner, c byte) state {
+			if s.isAnnotationStart(c) {
+				panic(s.newJSchemaErrorAtCharacter("after inline annotation"))
+			}
+			return fn(s, c)
+		}
 
 		s.annotation = annotationNone
 		if s.isInsideMultiLineAnnotation() {
